@@ -257,6 +257,18 @@ func raceChildC18(rp *racePlan) {
 				if k%4 != 0 {
 					world = renamedWorld(world, fmt.Sprintf("_w%dk%d", w, k))
 				}
+				if k%5 == 4 {
+					// an aborted load in between: its failure is expected, what it leaves behind is not
+					text := ""
+					for _, rd := range world.Readers {
+						text += string(rd.bytes()) + "\n"
+					}
+					bw := World{Host: world.Host, Readers: []ReaderSpec{{Text: text + brokenTails[(w+k)%len(brokenTails)]}}}
+					if d, err := newDyn(&bw, false); err == nil {
+						d.h.Close()
+					}
+					continue
+				}
 				d, err := newDyn(world, false)
 				if err != nil {
 					mu.Lock()
@@ -283,7 +295,7 @@ func raceChildC18(rp *racePlan) {
 		}
 	}
 	if loadFailures > 0 {
-		fmt.Printf("STRESS-MISMATCH %d of 640 concurrent loads of valid scripts failed\n", loadFailures)
+		fmt.Printf("STRESS-MISMATCH %d of 512 concurrent loads of valid scripts failed (128 aborted loads of broken scripts ran next to them)\n", loadFailures)
 		return
 	}
 	// sequentially afterwards
